@@ -110,6 +110,16 @@ impl RuntimeBalances {
             .map(|state| Self { state })
     }
 
+    /// Number of assets with a balance entry.
+    pub fn len(&self) -> usize {
+        self.state.len()
+    }
+
+    /// Returns `true` if no asset has a balance entry.
+    pub fn is_empty(&self) -> bool {
+        self.state.is_empty()
+    }
+
     /// Fetch the balance of a given Id, if set.
     pub fn balance(&self, asset: &AssetId) -> Option<Word> {
         self.state.get(asset).map(Balance::value)
